@@ -230,6 +230,56 @@ G3Docs(z) ==
   \cup {[definitions |-> [node |-> ListNode(LocalRef(PtrDefn("node")))], ref |-> LocalRef(PtrDefn("node"))]}
 G3Vals == F5Vals \cup {Obj([a |-> x]) : x \in {Num(R_1), Str("a")}} \cup {Obj([zz |-> Num(R_1)])}
 
+
+\* ------------------------------------------------------------ DY $dynamicRef (C06)
+\* K resources r1..rK (embedded under the root's $defs, or served by the Loader)
+\* plus the root resource r0; each declares, on a detached subschema $defs/t
+\* marked with a unique const, a $dynamicAnchor n, a plain $anchor n, or nothing.
+\* Evaluation enters a chain of distinct resources through $ref / $dynamicRef /
+\* allOf hops; the last one ends in a $dynamicRef in fragment, resource-relative
+\* or pointer form.  The instance pool is the set of marks: the verdict vector
+\* reveals which subschema the reference reached.
+DyKinds == {"dyn", "anc", "none"}
+Mark == <<R_0, R_1, R_2, R_3, R_4>>          \* Mark[i+1] marks resource i
+RN == <<"r1.json", "r2.json", "r3.json", "r4.json">>
+TNode(kind, i) ==
+  [const |-> Num(Mark[i + 1])] @@
+  (IF kind = "dyn" THEN [dynamicAnchor |-> "n"] ELSE IF kind = "anc" THEN [anchor |-> "n"] ELSE <<>>)
+ResRef(j, f) == IF j = 0 THEN Ref(RelRef(<<"root.json">>), f) ELSE Ref(RelRef(<<RN[j]>>), f)
+HopTo(j, hk) ==
+  CASE hk = "ref"   -> [ref |-> ResRef(j, FragNone)]
+    [] hk = "dref"  -> [dynamicRef |-> ResRef(j, FragNone)]
+    [] hk = "allOf" -> [allOf |-> <<[ref |-> ResRef(j, FragNone)]>>]
+DyFinal(fin) ==
+  CASE fin.k = "frag" -> [dynamicRef |-> LocalRef(FragName("n"))]
+    [] fin.k = "ptr"  -> [dynamicRef |-> LocalRef(FragPtr(<<SegN("defs", "t")>>))]
+    [] fin.k = "res"  -> [dynamicRef |-> ResRef(fin.j, FragName("n"))]
+DyFinals == {[k |-> "frag"], [k |-> "ptr"]} \cup {[k |-> "res", j |-> j] : j \in 0..K}
+\* chains: sequences of distinct resources of length 1..K
+DyChains == {c \in UNION {[1..n -> 1..K] : n \in 1..K} : \A i, j \in DOMAIN c : i # j => c[i] # c[j]}
+\* what resource i does after being entered
+DyAct(i, chain, hk, fin) ==
+  LET pos == IF i = 0 THEN 0 ELSE IF \E p \in DOMAIN chain : chain[p] = i THEN CHOOSE p \in DOMAIN chain : chain[p] = i ELSE 99
+  IN IF pos = 99 THEN <<>>                       \* never entered
+     ELSE IF pos = Len(chain) THEN DyFinal(fin)
+     ELSE HopTo(chain[pos + 1], hk)
+DyRes(i, kinds, chain, hk, fin, withId) ==
+  (IF withId THEN [id |-> IdOf(RelRef(<<RN[i]>>))] ELSE <<>>)
+  @@ [defs |-> [t |-> TNode(kinds[i + 1], i)]] @@ DyAct(i, chain, hk, fin)
+DyRootURI == URI("http", "h1", TRUE, <<"root.json">>)
+DyEmbedded(kinds, chain, hk, fin) ==
+  [docs |-> <<[uri |-> DyRootURI,
+               s |-> [defs |-> [t |-> TNode(kinds[1], 0)] @@ [i \in {RN[j] : j \in 1..K} |->
+                                    DyRes(CHOOSE j \in 1..K : RN[j] = i, kinds, chain, hk, fin, TRUE)]]
+                     @@ DyAct(0, chain, hk, fin)]>>]
+DyRemote(kinds, chain, hk, fin) ==
+  [docs |-> <<[uri |-> DyRootURI, s |-> [defs |-> [t |-> TNode(kinds[1], 0)]] @@ DyAct(0, chain, hk, fin)]>>
+             \o [j \in 1..K |-> [uri |-> URI("http", "h1", TRUE, <<RN[j]>>), s |-> DyRes(j, kinds, chain, hk, fin, FALSE)]]]
+DyCases(z) ==
+  UNION {{DyEmbedded(kinds, chain, hk, fin), DyRemote(kinds, chain, hk, fin)} :
+           kinds \in [1..(K + 1) -> DyKinds], chain \in DyChains, hk \in {"ref", "dref", "allOf"}, fin \in DyFinals}
+DyVals == {Num(Mark[i]) : i \in 1..(K + 1)} \cup {Str("a")}
+
 \* ------------------------------------------------------------ selection
 Stamp(s) == IF Dr = "d7" THEN s @@ [schema |-> D7http] ELSE s
 WithSchema(ss) == {Single(Stamp(s)) : s \in ss}
@@ -273,6 +323,7 @@ Cases ==
     [] Family = "G3" -> WithSchema(G3Docs(0))
     [] Family = "G4" -> G4Docs(0)
     [] Family = "G5" -> {u \in G5Docs(0) : ResolveOK(u, "d7")}
+    [] Family = "DY" -> DyCases(0)
 InstSet ==
   CASE Family = "F1" -> ScalarVals
     [] Family = "F2" -> ArrVals
@@ -286,6 +337,7 @@ InstSet ==
     [] Family = "G3" -> G3Vals
     [] Family = "G4" -> {Null, Num(R_1), Num(R_3), Num(R_h), Str("a"), EmptyObj}
     [] Family = "G5" -> G3Vals \cup ArrVals \cup {Obj([a |-> Num(R_1), b |-> Num(R_1)])}
+    [] Family = "DY" -> DyVals
 
 RECURSIVE SetToSeq(_)
 SetToSeq(S) == IF S = {} THEN <<>> ELSE LET x == CHOOSE y \in S : TRUE IN <<x>> \o SetToSeq(S \ {x})
@@ -302,22 +354,27 @@ Init == /\ cs \in Cases
         /\ res = <<>>
 
 \* res[i] is the full L0 result (verdict and annotation sets) for instance i
+ROK(U) == DrOf(U) = "refused" \/ ResolveOK(U, DrOf(U))
+
 Next == /\ phase = "new"
         /\ phase' = "done"
         /\ cs' = cs
-        /\ res' = [i \in DOMAIN Insts |->
-                     IF InDomain(cs, Insts[i]) THEN EvTop(cs, Insts[i]) ELSE Skip]
+        /\ res' = IF ~ROK(cs) THEN <<>>
+                  ELSE [i \in DOMAIN Insts |->
+                          IF InDomain(cs, Insts[i]) THEN EvTop(cs, Insts[i]) ELSE Skip]
 
 Spec == Init /\ [][Next]_vars
 
 \* Every universe is inside the property's quantifier: all references designate.
-Wellformed == phase = "new" => (DrOf(cs) # "refused" => ResolveOK(cs, DrOf(cs)))
+\* (family DY deliberately contains references that designate nothing: there the
+\* prediction is that Resolve fails)
+Wellformed == (phase = "new" /\ Family # "DY") => ROK(cs)
 
 \* L1 (code-shaped) refines L0 (specification-shaped): same verdict, and on
 \* success the compressed annotations denote the specification's sets.
 Refines ==
   phase = "done" =>
-    \A i \in DOMAIN Insts : res[i] # Skip =>
+    \A i \in DOMAIN res : res[i] # Skip =>
       LET c == CvTop(cs, Insts[i])
           e == res[i]
       IN /\ c.ok = e.ok
@@ -326,7 +383,7 @@ Refines ==
               /\ DenProps(c.anns, Insts[i]) = e.props
 
 Verdicts == [i \in DOMAIN res |-> IF res[i] = Skip THEN "x" ELSE IF res[i].ok THEN "T" ELSE "F"]
-Emit == phase = "done" => PrintT(<<"CASE", ToJson([u |-> cs, exp |-> Verdicts, dr |-> DrOf(cs)])>>)
+Emit == phase = "done" => PrintT(<<"CASE", ToJson([u |-> cs, exp |-> Verdicts, dr |-> DrOf(cs), res |-> IF ROK(cs) THEN "ok" ELSE "err"])>>)
 
 ASSUME PrintT(<<"INSTS", ToJson(Insts)>>)
 ====
